@@ -26,8 +26,8 @@ RULE = ('Hypothesis draws an ABSTRACT DS9 file from a grammar of the supported '
         'changes frame or has an unsupported statement between supported '
         'ones, and uses a non-decimal notation or a unit suffix.')
 ASSUMPTIONS = [
-    'where the DS9 reference manual is silent nothing is generated: include= '
-    'in a global line, numbers with a bare trailing dot, text containing its '
+    'where the DS9 reference manual is silent nothing is generated: include=0 '
+    'in a global line (include=1, which DS9 itself writes, is generated), numbers with a bare trailing dot, text containing its '
     'own closing delimiter / braces / newlines, upper-case enumerated values, '
     'ellipse/box without an angle',
     'composite property lists carry flags and colours only (no text/tags)',
@@ -238,6 +238,11 @@ def ds9_file(draw, max_stmts):
             pr, _ = draw(props('circle', allow_text=False, allow_include=False))
             if not pr:
                 pr = [['color', 'green']]
+            # DS9's own header line says include=1; the sign of each
+            # region still decides (include=0 in a global line is not
+            # generated: the manual does not say what it means)
+            if draw(st.booleans()):
+                pr.insert(draw(st.integers(0, len(pr))), ['include', 1])
             stmts.append({'k': 'global', 'props': pr, 'term': '\n'})
         elif kind == 'composite':
             fr = frame if frame is not None else 'image'
@@ -404,6 +409,11 @@ class Read(Relation):
             sz.get('u') for s in afile if s['k'] == 'region'
             for sz in s.get('sizes', []))
         between = any(k in ('unsup_shape', 'unsup_frame') for k in kinds)
+        from vf.ops import parsed_independent
+        with warnings.catch_warnings():
+            warnings.simplefilter('ignore')
+            parsed_independent(ctx, regs, lambda: Regions.parse(
+                text, format='ds9'), 'read')
         ctx.nontrivial((len(frames) >= 2 or between) and fancy
                        and len(expected) >= 1)
 
